@@ -99,6 +99,13 @@ func routesFor(r *Run) (routes string, outerTimeout string) {
 				"handle": []any{map[string]any{"handler": "verif_sink", "name": "H2"}}},
 			inner}}
 		return drive.J([]any{map[string]any{"handle": []any{sub, map[string]any{"handler": "verif_sink", "name": "H", "bufsize": 64}}}}), "30s"
+	case "after-nonterminal-late":
+		// like after-nonterminal, but the non-terminal route needs three bytes: with a trickling client it matches only
+		// after several prefetch rounds in which the undecided route behind it has already been seen as undecided
+		return drive.J([]any{
+			map[string]any{"match": []any{map[string]any{"verif_m1": map[string]any{"id": "first", "need": 3, "at": 0, "eq": 2}}},
+				"handle": []any{map[string]any{"handler": "verif_take", "name": "T", "n": 1}}},
+			undecidedRoute("H")}), T
 	case "after-nonterminal":
 		// a route that matches on the first byte and is not terminal, then an undecided route: the timeout
 		// still bounds the matching that continues after the first route
@@ -154,11 +161,14 @@ func run(c *fw.Ctx) {
 						runs = append(runs, &Run{Transport: tr, Client: cl, TimeoutMs: to, Phase: ph, Variant: "undecided", Index: idx})
 					}
 				}
+				// tcp: pieces up to just below the limit, then a burst
+				idx++
+				runs = append(runs, &Run{Transport: "tcp", Client: "ramp", TimeoutMs: to, Phase: ph, Variant: "undecided", Index: idx})
 				// udp: a silent client behind a matched non-terminal route
 				idx++
 				runs = append(runs, &Run{Transport: "udp", Client: "silent", TimeoutMs: to, Phase: ph, Variant: "after-nonterminal", Index: idx})
 				// extra variants, on tcp
-				for _, v := range []string{"subroute", "http", "wrapper", "errmatcher", "aftermatch", "after-nonterminal", "or-sets",
+				for _, v := range []string{"subroute", "http", "wrapper", "errmatcher", "aftermatch", "after-nonterminal", "after-nonterminal-late", "or-sets",
 					"aftermatch-empty", "aftermatch-empty-nomatcher", "aftermatch-take"} {
 					idx++
 					cl := "trickle"
@@ -346,6 +356,21 @@ func runTCP(canary *oracle.Canary, r *Run) *outcome {
 					sent++
 					sentMu.Unlock()
 				case <-stopClient:
+					return
+				}
+			}
+		case r.Client == "ramp":
+			// small pieces up to just below the matching limit (the buffer grows piece by piece), then a burst
+			piece := bytes.Repeat([]byte{3}, 100)
+			for i := 0; i < 81; i++ {
+				if _, err := client.Write(piece); err != nil {
+					return
+				}
+				time.Sleep(200 * time.Microsecond)
+			}
+			chunk := bytes.Repeat([]byte{3}, 4096)
+			for i := 0; i < 16; i++ {
+				if _, err := client.Write(chunk); err != nil {
 					return
 				}
 			}
